@@ -9,6 +9,8 @@ TRUSTED = [
     "FetchSearchResult and seq.MergeQPRs (tied to /repo by the correspondence run, not verified code)",
     "Go harness harness/cmd/hC19 (generators, canonical rendering of QPRs, classification of file contents) and the "
     "shared crash-state builder harness/internal/crashfs (strace log -> directory states) + storectl (child processes)",
+    "overlap class: the fetch takes its snapshot at the resumed state or a later one (scheduler dependent); the model check accepts "
+    "any state of the run from the resumed one on, the spec (Done => sync answer; not Done => merge of a prefix of the fraction list) is exact",
     "proxy level: scripted StoreApiClients (answers are real store-handler responses, protobuf round trip included); "
     "QPR.Aggregate of the proxy answer is not compared (C06)",
     "per-fraction search results, JSON+zstd codec of .qpr/.info files, query re-parsing: NOT modelled; exercised through the "
@@ -28,7 +30,9 @@ RULE = ("worlds = corpus in 0..4 real fractions (sealed/active, some IDs stored 
         "a write cut short, power loss, second crashes inside the resumed run, and restarts before which new matching documents "
         "are ingested into a new (optionally sealed) fraction. non-trivial = at least 2 fractions, "
         "histogram or aggregation requested, and (for crash cases) the request published but not done at the crash; "
-        "proxy class: the real "
+        "crash variant 3 = every leftover temporary file made longer than any "
+        "later payload; overlap class: a resumed worker held in the (harness) mapping provider, FetchSearchResult started, worker "
+        "released, the fetch blocked on a named pipe among its listed .qpr files until the request is Done; proxy class: the real "
         "search.Ingestor over 1-3 shards x replicas of scripted clients; StartAsyncSearch's request goes to the real store handler of "
         "every shard, FetchAsyncSearchResult gets REAL store-handler answers taken at every progress of each shard (unknown, i of n "
         "partial results persisted and not resumed, resumed, done) in every combination (sampled in quick); non-trivial there = at least "
